@@ -248,3 +248,38 @@ Definition c17_ref_faults_code (c : c17case) : N :=
 
 Definition check_c17r2 (c : c17case) : N :=
   match c17_ref_faults_code c with 0 => check_c17r c | n => n end.
+
+(* ---- C03 (gas) against the reference: a thread's gas account is the gas of its WHOLE path from the start ---- *)
+From SLX Require Import SimTrace.
+
+(* a lower bound of what the symbolic machine must have charged along path p: the minimum gas of every instruction the
+   reference EVM executes on that path except JUMPDESTs (a JUMP's landing is stepped over), except JUMPIs (the thread
+   forked for the taken branch copies the account before the JUMPI itself is charged) and except the last one *)
+Definition path_gas_lower (bytes : list byte) (code : list instr) (p : list bool) : N :=
+  let pcs := removelast (epcs bytes (efuel bytes) p e_init) in
+  fold_left (fun acc pc => match nth_error code (N.to_nat pc) with
+                           | Some (IOp o) => if (op_byte o =? 91) || (op_byte o =? 87) then acc else acc + instr_gas (IOp o)
+                           | Some i => acc + instr_gas i
+                           | None => acc
+                           end) pcs 0.
+
+(* 26: a retired thread's gas account is below the gas of its own path (e.g. lost at a fork) *)
+Definition c03_gas_code (c : vcase) : N :=
+  match try_from (c_code c), c_run c with
+  | Ok code, XRun _ _ states _ retired _ _ =>
+      let bytes := c_code c in
+      let paths := v_paths (result_vm (model_run code (c_cfg c))) in
+      if Nat.eqb (length retired) (length paths) && (N.of_nat (length bytes) <? 4096) then
+        if forallb (fun rp : (N * N) * list bool =>
+                      negb (comparable bytes (snd rp))
+                      || (gas_limit (c_cfg c) <? snd (fst rp))          (* retired by the gas limit: the path was cut *)
+                      (* retired anywhere else than where the reference path halts (visit / fork limits): not compared *)
+                      || negb (last (epcs bytes (efuel bytes) (snd rp) e_init) 0 =? fst (fst rp))
+                      || (path_gas_lower bytes code (snd rp) <=? snd (fst rp)))
+                   (combine retired paths)
+        then 0 else 26
+      else 0
+  | _, _ => 0
+  end.
+
+Definition check_c03g (c : vcase) : N := match c03_gas_code c with 0 => check_c03 c | n => n end.
